@@ -849,21 +849,26 @@ func readerPart(seed int64) {
 // Model/FetcherLife.lean, one token per event, tagged with the fetcher: T<f>:<attempt> top, C<f> cancel, I<f>:<1|0> init,
 // J<f> iter, R<f>:<class> read, O<f>:<1|0> offsets (after an out-of-range read only), M<f> msg, E<f> sendErr.
 func fetcherTrace(evs []kafka.VerifEvent) (string, string) {
+	// fetchers are told apart by the address of their *reader; the allocator may hand the address of a fetcher that has
+	// exited to a later one (several generations in one scenario): a run that starts (RL.Top, attempt 0) at the address of
+	// an exited fetcher is a new fetcher
 	ids := map[string]int{}
-	id := func(a string) int {
-		if _, ok := ids[a]; !ok {
-			ids[a] = len(ids) + 1
+	nids := 0
+	exited := map[int]bool{}
+	id := func(a string, fresh bool) int {
+		if f, ok := ids[a]; !ok || (fresh && exited[f]) {
+			nids++
+			ids[a] = nids
 		}
 		return ids[a]
 	}
 	lastRead := map[int]string{}
-	exited := map[int]bool{}
 	var toks []string
 	for _, e := range evs {
 		if !strings.HasPrefix(e.Kind, "RL.") || len(e.Args) == 0 {
 			continue
 		}
-		f := id(e.Args[0])
+		f := id(e.Args[0], e.Kind == "RL.Top" && len(e.Args) > 2 && e.Args[2] == "0")
 		switch e.Kind {
 		case "RL.Top":
 			toks = append(toks, fmt.Sprintf("T%d:%s", f, e.Args[2]))
@@ -919,5 +924,5 @@ func fetcherTrace(evs []kafka.VerifEvent) (string, string) {
 	if len(toks) > 0 {
 		tr = strings.Join(toks, ";")
 	}
-	return "ftrace n=" + strconv.Itoa(len(ids)) + " " + tr, fmt.Sprintf("live=%d", len(ids)-len(exited))
+	return "ftrace n=" + strconv.Itoa(nids) + " " + tr, fmt.Sprintf("live=%d", nids-len(exited))
 }
